@@ -1469,6 +1469,46 @@ def _space_cases(ctx, C, rng, cs, make_hpr, spaces):
                                       case=case, signature=dict(op="round_trip", defect="round_trip_differs", space=True,
                                                                 fixed_last=True, last_differs_from_fixed_value=True,
                                                                 constructor=S["space"][lk_]["kind"]))
+        # bounds sequences on ONE object: value_for_last_pos is a public attribute that searchers re-assign
+        # (e.g. the resource level before every get_config); after each assignment get_ndarray_bounds() must pin
+        # the CURRENT value, vectors inside must decode to it, and random_config's encoding must lie inside
+        if value_last is not None and others:
+            lk_ = S["name_last_pos"]
+            lcont = S["space"][lk_]["kind"] in ("uniform", "loguniform", "reverseloguniform")
+            st, en = hpr.encoded_ranges[lk_]
+            seq_vals = list(others[:2]) + [value_last]
+            for step_, nv in enumerate(seq_vals):
+                hpr.value_for_last_pos = nv
+                okb2, b2 = call(lambda: [(float(a_), float(b_)) for a_, b_ in hpr.get_ndarray_bounds()])
+                okc2, cfg2 = call(lambda: hpr.random_config(rs))
+                ctx.count(("fixed_last_bounds_sequence", S, step_), nontrivial=True)
+                ctx.h("op", "fixed_last_bounds_sequence")
+                sig = dict(op="get_ndarray_bounds", space=True, fixed_last=True, sequence_on_one_object=True,
+                           constructor=S["space"][lk_]["kind"])
+                what = None
+                if not okb2 or not okc2:
+                    what, sig["defect"] = "raises %s / %s" % (b2 if not okb2 else "", cfg2 if not okc2 else ""), "raises"
+                else:
+                    enc2 = [float(t) for t in np.asarray(hpr.to_ndarray(cfg2)).reshape(-1)]
+                    want = enc2[st:en]
+                    if not same_value(cfg2[lk_], nv, lcont):
+                        what, sig["defect"] = "random_config gives %s=%r" % (lk_, cfg2[lk_]), "fixed_last_ignored"
+                    elif any(abs(lo_ - w_) > 1e-9 or abs(hi_ - w_) > 1e-9 for (lo_, hi_), w_ in zip(b2[st:en], want)):
+                        what, sig["defect"] = ("bounds of the last attribute %r do not pin the encoding %r of the current value "
+                                               "(random_config's encoding is outside the bounds)" % (b2[st:en], want)), "bounds_pin_stale_value"
+                    else:
+                        for v2 in ([a_ for a_, b_ in b2], [a_ + (b_ - a_) * rng.random() for a_, b_ in b2]):
+                            okd2, dec2 = call(lambda: hpr.from_ndarray(np.array(v2)))
+                            if not okd2 or not same_value(dec2[lk_], nv, lcont):
+                                what, sig["defect"] = "from_ndarray(%r) inside the bounds gives %s=%r" % (
+                                    v2, lk_, dec2[lk_] if okd2 else dec2), "fixed_last_value_not_decoded"
+                                break
+                if what is not None:
+                    ctx.violation("property", "one object, value_for_last_pos assigned %r in turn (initially %r); after assigning %r: "
+                                  "get_ndarray_bounds() = %r; %s" % (seq_vals[:step_ + 1], value_last, nv, b2 if okb2 else None, what),
+                                  case=case, signature=sig)
+                    break
+            hpr.value_for_last_pos = value_last
         # decode cube points
         n = hpr.ndarray_size
         vecs = [[0.0] * n, [1.0] * n, [float(rng.choice([0, 1])) for _ in range(n)], [rng.random() for _ in range(n)],
